@@ -21,6 +21,7 @@ var propPkgs = map[string][]string{
 	"C17": {"./internal/tools/bitmask"},
 	"C01": {"./internal/index"},
 	"C18": {"./internal/tools/regexAnalysis"},
+	"C07": {"./internal/index"},
 }
 
 type Finding struct {
